@@ -38,7 +38,7 @@ Definition KcInv (g : rgst) (k : kinc) : Prop :=
 
 Definition PcInvR (g : rgst) (pc : rpc) : Prop :=
   match pc with
-  | RIdle | RecEnd _ | RecDist _ _ => True
+  | RIdle | RecEnd _ _ | RecDist _ _ => True
   | AStart d => d <> EMPTY
   | RelCell i _ _ => i < rcap g
   | ScanDist k | ScanStart k => KsInv g k
@@ -115,7 +115,7 @@ Proof.
   { intros [d n|i m|n d m mask|init count k]; cbn [KcInv]; rewrite ?Hc; auto.
     intros (H1 & H2 & H3 & H4). split; [assumption|]. split; [lia|]. split; [|auto].
     eapply count_seen_frame; eauto. }
-  destruct pc as [|d|i d m|k|d m|d cur n|d cur|k|c k|kl|k|init n count k|gn kl|n d m mask|n d m mask|mask]; cbn [PcInvR] in *; rewrite ?Hc; auto.
+  destruct pc as [|d|i d m|k|d m|d cur n|d cur|k|c k|kl|k|init n count k|gn kl|n d m mask|n d m mask|dd mask]; cbn [PcInvR] in *; rewrite ?Hc; auto.
   - destruct Hp as (H1 & H2 & H3 & H4 & H5). repeat split; auto; [lia|]. eapply scan_seen_frame; eauto.
   - destruct Hp as (H1 & H3 & H4 & H5). repeat split; auto; [lia|]. eapply scan_seen_frame; eauto.
   - destruct Hp as (H1 & H2). split; auto.
@@ -207,6 +207,11 @@ Proof.
   intros (H0 & H). unfold GInvR, cellv in *. cbn [set_gen rcap gen cells rholder rdone cleared_at]. split; [lia|exact H].
 Qed.
 
+Lemma ginv_pop g n : GInvR g -> GInvR (set_pop g n).
+Proof. intros H. exact H. Qed.
+Lemma frame_pop g g1 n : frame_ok g g1 -> frame_ok g (set_pop g1 n).
+Proof. intros H. exact H. Qed.
+
 Lemma invr_build g' ls t l' :
   GInvR g' -> LInvR g' l' -> (forall t', LInvR g' (ls t')) -> InvR (g', upd_l ls t l').
 Proof.
@@ -264,16 +269,16 @@ Proof.
   assert (Hsame : forall pc' h', PcInvR g pc' -> Forall (fun e => fst e < rcap g) h' ->
                   InvR (g, upd_l ls t (set_r (ls t) (rprog (ls t)) pc' h'))).
   { intros pc' h' Hp Hh. apply invr_build; auto. split; assumption. }
-  assert (Hsamep : forall p pc' h', PcInvR g pc' -> Forall (fun e => fst e < rcap g) h' ->
-                  InvR (g, upd_l ls t (set_r (ls t) p pc' h'))).
-  { intros p pc' h' Hp Hh. apply invr_build; auto. split; assumption. }
+  assert (Hsamep : forall p pc' h' s', PcInvR g pc' -> Forall (fun e => fst e < rcap g) h' ->
+                  InvR (g, upd_l ls t {| rprog := p; rpc_of := pc'; rheld := h'; rstamp := s' |})).
+  { intros p pc' h' s' Hp Hh. apply invr_build; auto. split; assumption. }
   assert (Hchg : forall g2 p pc' h', GInvR g2 -> frame_ok g g2 -> PcInvR g2 pc' -> Forall (fun e => fst e < rcap g) h' ->
                   InvR (g2, upd_l ls t (set_r (ls t) p pc' h'))).
   { intros g2 p pc' h' HG2 Hf Hp Hh. apply invr_build; auto.
     - split; [assumption|]. destruct Hf as (Hc & _). cbn [set_r rheld]. rewrite Hc. assumption.
     - intros t'. eapply linv_frame; eauto. }
   unfold rstep in Est.
-  destruct (rpc_of (ls t)) as [|d|i d m|k|d m|d cur n|d cur|k|c k|kl|k|init n count k|gn kl|n d m mask|n d m mask|mask] eqn:Epc;
+  destruct (rpc_of (ls t)) as [|d|i d m|k|d m|d cur n|d cur|k|c k|kl|k|init n count k|gn kl|n d m mask|n d m mask|dd mask] eqn:Epc;
     cbn [PcInvR] in HtPc.
   - (* RIdle *)
     destruct (rprog (ls t)) as [|o p] eqn:Eprog; [discriminate|].
@@ -305,7 +310,7 @@ Proof.
   - (* AScan *)
     destruct HtPc as (Hd & Hn & Hcm & Hcg & Hss).
     destruct (N.eqb_spec (nthN (cells g) n 0) EMPTY) as [E|E]; inversion Est; subst g' l' e'; clear Est.
-    + apply Hchg; [apply ginv_populate; assumption|apply frame_populate; auto|cbn; auto|assumption].
+    + apply Hchg; [apply ginv_pop, ginv_populate; assumption|apply frame_pop, frame_populate; auto|cbn; auto|assumption].
     + apply Hsame; [|assumption]. unfold acq_next. destruct (N.ltb_spec (n + 1) (rcap g)) as [Hlt|Hge]; cbn.
       * repeat split; auto. intros Eg i Hi Hic He. destruct (N.eq_dec i n) as [->|Hne]; [contradiction|]. apply Hss; auto; lia.
       * repeat split; auto. intros Eg i Hi Hic He. destruct (N.eq_dec i n) as [->|Hne]; [contradiction|]. apply Hss; auto; lia.
@@ -410,7 +415,7 @@ Lemma rstep_gen t g l g' l' es : rstep t g l = Some (g', l', es) ->
   (exists k, rpc_of l = IncCas (gen g) k /\ gen g' = gen g + 1) \/
   (exists kl, rpc_of l = LockCas (gen g) kl /\ gen g' = MAX64).
 Proof.
-  intros H. rcases H; inversion H; subst; clear H; cbn [set_gen set_cell gen]; auto.
+  intros H. rcases H; inversion H; subst; clear H; cbn [set_gen set_cell set_pop gen]; auto.
   all: repeat match goal with E : (_ =? _) = true |- _ => apply N.eqb_eq in E end.
   all: subst.
   all: try (right; left; eexists; split; reflexivity).
@@ -499,7 +504,7 @@ Theorem ruis_acquire_cas_on_empty t g l g' l' es i t' :
   t' = t /\ cellv g i = EMPTY /\ exists d cur, rpc_of l = AScan d cur i.
 Proof.
   intros H Hi Hh' Hh. unfold cellv.
-  rcases H; try discriminate; injection H as Hg Hl He; subst g' l' es; cbn [set_gen set_cell rholder cells] in *; try contradiction;
+  rcases H; try discriminate; injection H as Hg Hl He; subst g' l' es; cbn [set_gen set_cell set_pop rholder cells] in *; try contradiction;
     match type of Hh' with
     | nthN (updN _ ?n _) _ None = _ =>
       destruct (N.eq_dec n i) as [->|Hne]; [rewrite nthN_updN_same in Hh' by assumption|rewrite nthN_updN_other in Hh' by assumption; contradiction]
